@@ -191,7 +191,7 @@ def _pct_cfg(rng, kind, d, steps_hint=4, fin_hint=2):
 
 def _thr_cfg(rng, d, steps_hint=4):
     while True:
-        lo, hi = rng.choice([NOLO, 0, 1, 2]), rng.choice([NOHI, 1, 2, 3])
+        lo, hi = rng.choice([NOLO, 0, 1, 2]), rng.choice([NOHI, 0, 1, 2, 3])       # 0 is a bound like any other
         if lo <= hi and not (lo == NOLO and hi == NOHI):
             break
     return {"kind": "threshold", "dir": d, "lo": lo, "hi": hi,
